@@ -45,6 +45,9 @@ def cases(draw, tier="quick"):
         out = [names[i] for i in k]
         if draw(st.integers(0, 4)) == 0:
             out.insert(draw(st.integers(0, len(out))), "nope")
+        if draw(st.integers(0, 5)) == 0:
+            # a name given twice
+            out.insert(draw(st.integers(0, len(out))), out[draw(st.integers(0, len(out) - 1))])
         return out
     vars1, vars2 = sel(f1), sel(f2)
     neg = draw(st.sampled_from([None] * 5 + ["levels", "removed", "split", "header_order", "moved", "view_levels"]))
@@ -154,7 +157,12 @@ def check_case(case, ctx):
     vars2 = case["vars2"]
     sel1 = list(p1.fields) if case["vars1"] is None else [v for v in case["vars1"] if v in p1.fields]
     sel2 = list(p2.fields) if vars2 is None else [v for v in vars2 if v in p2.fields]
+    # a selection naming a field twice: the pair may be refused or combined with each name once
+    repeats = len(set(sel1)) < len(sel1) or len(set(sel2)) < len(sel2)
+    sel1, sel2 = list(dict.fromkeys(sel1)), list(dict.fromkeys(sel2))
     sel2 = [v for v in sel2 if v not in sel1]
+    if repeats:
+        ctx.label("selection-repeats-a-name")
     if not sel1 or not sel2:
         ctx.label("empty-selection (outside the statement)")
         return []
@@ -163,7 +171,7 @@ def check_case(case, ctx):
     snaps = (snapshot("in1"), snapshot("in2"))
     v = []
     from .. import pools
-    if neg is None and case.get("limit", 0) % 3 == 0:
+    if neg is None and case.get("limit", 0) % 3 == 0 and not repeats:
         # second use: the output directory already holds an older result (every field of both inputs)
         ctx.label("output-directory-holds-an-older-result")
         try:
@@ -220,6 +228,11 @@ def check_case(case, ctx):
     if neg == "header_order" and raised is not None:
         if os.path.lexists("out"):
             v.append("pair refused (header order) after output was (partly) written")
+        return v
+    if raised is not None and repeats and neg is None:
+        # (the statement promises "before anything is written" for inputs whose levels or boxes differ, not for this refusal:
+        #  the unchanged tree refuses it after creating the empty output directories - not asserted)
+        ctx.label("selection-repeats-a-name:refused")
         return v
     if raised is not None:
         return v + [f"combine raised {type(raised).__name__}: {str(raised)[:200]}"]
